@@ -893,6 +893,16 @@ func (g *Gen) sliceLen(x ssa.Value, st *State) string {
 	if isString(x.Type()) {
 		return fmt.Sprintf("(strlen %s)", v.S)
 	}
+	if _, isMap := t.(*types.Map); isMap || v.Sort != "Slice" {
+		// len of a map (or channel): an unknown non-negative number
+		if !g.w.pureDecl["reflen"] {
+			g.w.pureDecl["reflen"] = true
+			g.w.decls = append(g.w.decls, "(declare-fun reflen (Int Int) Int)")
+			g.w.assumeGlobal("(forall ((r Int) (k Int)) (! (>= (reflen r k) 0) :pattern ((reflen r k))))")
+		}
+		g.w.n++
+		return fmt.Sprintf("(reflen %s %d)", v.S, g.w.n)
+	}
 	return fmt.Sprintf("(slen %s)", v.S)
 }
 
@@ -1102,7 +1112,9 @@ func (g *Gen) instr(in ssa.Instruction, st *State) {
 		r := w.fresh("mk", "Slice")
 		w.assume(fmt.Sprintf("(and (= (slen %s) %s) (= (soff %s) 0) (>= (scap %s) %s) (> (sbase %s) 0))", r.S, ln.S, r.S, r.S, ln.S, r.S))
 		g.vals[v] = r
-	case *ssa.MakeMap, *ssa.MakeChan, *ssa.MakeClosure, *ssa.MakeInterface, *ssa.ChangeInterface:
+	case *ssa.ChangeInterface:
+		g.vals[v] = g.val(v.X, st) // same dynamic value, another static interface type
+	case *ssa.MakeMap, *ssa.MakeChan, *ssa.MakeClosure, *ssa.MakeInterface:
 		r := w.fresh("o", "Int")
 		if mm, isMap := v.(*ssa.MakeMap); isMap {
 			w.assume(fmt.Sprintf("(> %s 0)", r.S))
@@ -1135,12 +1147,23 @@ func (g *Gen) instr(in ssa.Instruction, st *State) {
 				w.assume(fmt.Sprintf("(not (= %s 0))", g.vals[v].S))
 				g.note("spec used: type assertion to a pointer type yields non-nil (typed-nil interface values and failing assertions not modelled)")
 			}
-		} else if _, isPtr := v.AssertedType.Underlying().(*types.Pointer); isPtr {
-			// x, ok := i.(*T): when ok, x is taken to be non-nil (interface values holding a typed nil pointer are not modelled: listed)
+		} else {
 			val := g.tupleElem(v, 0, v.AssertedType)
 			ok := g.tupleElem(v, 1, types.Typ[types.Bool])
-			w.assume(fmt.Sprintf("(=> %s (not (= %s 0)))", ok.S, val.S))
-			g.note("spec used: comma-ok type assertion to a pointer type yields non-nil when ok")
+			// a failed assertion yields the zero value; a successful one to a reference-like type yields the same reference
+			w.assume(fmt.Sprintf("(=> (not %s) (= %s %s))", ok.S, val.S, w.zero(v.AssertedType).S))
+			x := g.val(v.X, st)
+			if x.Sort == "Int" && val.Sort == "Int" {
+				switch v.AssertedType.Underlying().(type) {
+				case *types.Pointer, *types.Interface:
+					w.assume(fmt.Sprintf("(=> %s (= %s %s))", ok.S, val.S, x.S))
+				}
+			}
+			if _, isPtr := v.AssertedType.Underlying().(*types.Pointer); isPtr {
+				// x, ok := i.(*T): when ok, x is taken to be non-nil (interface values holding a typed nil pointer are not modelled: listed)
+				w.assume(fmt.Sprintf("(=> %s (not (= %s 0)))", ok.S, val.S))
+				g.note("spec used: comma-ok type assertion to a pointer type yields non-nil when ok")
+			}
 		}
 	case *ssa.Range:
 	case *ssa.Next:
